@@ -5,6 +5,16 @@ import common
 import declsuite as ds
 from absn import KeyTable, Unmodelled, clist, cschema
 
+def _hash_agrees(a, b):
+    """equal objects hash equal, where they hash at all (schemas define __eq__ only and are unhashable today; "equal"
+    includes being one member of a set / one key of a dict)"""
+    try:
+        ha, hb = hash(a), hash(b)
+    except TypeError:
+        return True
+    return ha == hb and len({a, b}) == 1
+
+
 PROPS_FILE = "props/C11.v"
 MODEL_FILES = ["theories/Declare.v", "theories/CaseDeclare.v"]
 EXTRA_TRUSTED = [
@@ -107,6 +117,7 @@ def run(ctx):
                         nan = ds.nan_param(s0)
                         for o, (_, s) in outcomes[1:]:
                             same = (repr(s) == repr(s0)) and (cschema(s, KeyTable()) == t0) and (s == s0 and s0 == s)   # NaN parameters included (F10 repaired)
+                            same = same and not (s != s0) and not (s0 != s) and _hash_agrees(s, s0)
                             if not same:
                                 rp.update(observed=f"{chain(first_order)} -> {s0!r} but {chain(o)} -> {s!r}",
                                           expected="equal schemas for every order")
